@@ -380,8 +380,10 @@ func (c *ClientConn) maybeCachePrepared(request Request, raw *frame.RawFrame) {
 func (c *ClientConn) Closing(err error) {
 	c.closingMu.Lock()
 	c.closing = true
-	c.pending.closing(err)
 	c.closingMu.Unlock()
+	// Notify pending requests without holding the lock: a request's OnClose may retry on another connection that is
+	// closing at the same time (and vice versa), which would otherwise deadlock both connections' read loops.
+	c.pending.closing(err)
 }
 
 func (c *ClientConn) addToPending(request Request) (int16, error) {
